@@ -15,7 +15,7 @@ EQ = {"eq": "=", "sp_eq_sp": " = ", "nl_eq": "\n   ="}
 END = {"plain": "</block>", "inner": "</ block >", "trailsp": "</block >"}
 LOOK = {"none": "", "text": "some text, 2 > 1", "b_tag": "<b>bold</b>", "lone_lt": "a <", "a_lt_b": "a < b and c<d",
         "blockquote": "<blockquote>q</blockquote>", "selfclose": "<block/>", "upper": "<Block> <BLOCK name=x>",
-        "spaced": "< block> < block name=x>", "noattr_glued": "<blockname=x> <block-x> <block_>", "unterminated": "<block name='unterminated"}
+        "spaced": "< block> < block name=x>", "noattr_glued": "<blockname=x> <block-x> <block_>", "unterminated": "<block name='unterminated", "unterminated_dq": "<block name=\"unterminated"}
 
 
 def spell_value(a):
@@ -48,11 +48,13 @@ def render(case, ci):
         else:
             exp[NAME[a["name"]]] = v[1:-1]
     tag += lay["trail"].replace("sp", " ") + ">"
+    if case["noise"]["before"] == "glued_after_end":
+        return render_glued(case, ci, tag, exp)
     before = LOOK[case["noise"]["before"]]
     after = LOOK[case["noise"]["after"]]
     # the unterminated look-alike must not meet a quote later in the same comment: it goes into its own comment
     tail = ""
-    if case["noise"]["after"] == "unterminated":
+    if case["noise"]["after"] in ("unterminated", "unterminated_dq"):
         tail, after = after, ""
     body = "note " + (before + " " if before else "") + tag + (" " + after if after else "") + " note"
     multi = "\n" in body
@@ -70,7 +72,30 @@ def render(case, ci):
         name = "t.md"
         prefix = "<!-- note " + (before + " " if before else "")
     col = len(prefix.encode()) + 1
-    return name, text, exp, 1, col
+    return name, text, [(exp, 1, col)]
+
+
+def render_glued(case, ci, tag, exp):
+    """The tag directly after the end tag of a previous block, as the last thing in its comment."""
+    lay = case["layout"]
+    end = END[lay["endsp"]]
+    multi = "\n" in tag
+    lang = ci % 3
+    if multi or lang == 0:
+        l2 = "/* " + end
+        text = "/* <block name=\"p\"> */\nstatic P: i32 = 1;\n" + l2 + tag + " */\nstatic X: i32 = 1;\n/* " + end + " */\n"
+        name = "t.rs"
+    elif lang == 1:
+        l2 = "# " + end
+        text = "# <block name=\"p\">\np = 1\n" + l2 + tag + "\nx = 1\n# " + end + "\n"
+        name = "t.py"
+    else:
+        l2 = "<!-- " + end
+        text = "<!-- <block name=\"p\"> -->\n\ntext\n\n" + l2 + tag + " -->\n\ntext\n\n<!-- " + end + " -->\n"
+        name = "t.md"
+    first_col = {"t.rs": 4, "t.py": 3, "t.md": 6}[name]
+    tag_line = 3 if name != "t.md" else 5
+    return name, text, [({"name": "p"}, 1, first_col), (exp, tag_line, len(l2.encode()) + 1)]
 
 
 def run(chk):
@@ -87,33 +112,33 @@ def run(chk):
         ci = len(batch)
         if quick and ci % 2 == 1 and False:
             return
-        name, text, exp, line, col = render(c, ci)
+        name, text, want = render(c, ci)
         cid = "t%d" % ci
         batch.append({"id": cid, "files": {name: text}, "diff": None, "args": ["list"], "terminal": True})
-        meta[cid] = (c, exp, line, col, name)
+        meta[cid] = (c, want, name)
     res = vlib.run_tlc("MC_C05", cfg_text=cfg, timeout=3000, heap="16g", keep_cases=False, on_case=on)
     chk.add_tlc(res, "MC_C05")
     chk.exhaustive = True
     results = vlib.run_bwexec(batch)
     for case in batch:
-        c, exp, line, col, name = meta[case["id"]]
+        c, want, name = meta[case["id"]]
         r = results[case["id"]]
         chk.count(nontrivial=bool(c["attrs"]) or c["noise"]["before"] not in ("none", "text") or c["noise"]["after"] not in ("none", "text"))
-        detail = {"abstract": c, "concrete": case, "expected": {"attributes": exp, "line": line, "column": col},
+        detail = {"abstract": c, "concrete": case, "expected": [{"attributes": e, "line": l, "column": k} for (e, l, k) in want],
                   "observed": {k: r.get(k) for k in ("outcome", "exit", "list", "error")}}
         if r["outcome"] != "ok":
             chk.violation("tag not recognised / run failed (%s): %s" % (r["outcome"], (r.get("error") or "")[:200]), detail)
             continue
         blocks = (r["list"] or {}).get(name, [])
-        if len(blocks) != 1:
-            chk.violation("%d blocks found, exactly one tag pair was written (look-alikes: %s / %s)" % (
-                len(blocks), c["noise"]["before"], c["noise"]["after"]), detail)
+        if len(blocks) != len(want):
+            chk.violation("%d blocks found, %d tag pair(s) written (look-alikes: %s / %s)" % (
+                len(blocks), len(want), c["noise"]["before"], c["noise"]["after"]), detail)
             continue
-        b = blocks[0]
-        if b["attributes"] != exp:
-            chk.violation("attributes %s, written %s" % (json.dumps(b["attributes"], ensure_ascii=False), json.dumps(exp, ensure_ascii=False)), detail)
-        elif (b["line"], b["column"]) != (line, col):
-            chk.violation("tag reported at %d:%d, its '<' is at %d:%d" % (b["line"], b["column"], line, col), detail)
+        for b, (exp, line, col) in zip(sorted(blocks, key=lambda x: (x["line"], x["column"])), want):
+            if b["attributes"] != exp:
+                chk.violation("attributes %s, written %s" % (json.dumps(b["attributes"], ensure_ascii=False), json.dumps(exp, ensure_ascii=False)), detail)
+            elif (b["line"], b["column"]) != (line, col):
+                chk.violation("tag reported at %d:%d, its '<' is at %d:%d" % (b["line"], b["column"], line, col), detail)
     # CLI sample
     ids = [b["id"] for b in batch]
     chk.rng.shuffle(ids)
